@@ -327,8 +327,10 @@ func (r restServerProtocol) extractProtocolResponseHeaders(statusCode int, heade
 	return meta, nil, nil
 }
 
-func (r restServerProtocol) extractEndFromTrailers(_ *operation, _ http.Header) (responseEnd, error) {
-	return responseEnd{}, nil
+func (r restServerProtocol) extractEndFromTrailers(_ *operation, trailers http.Header) (responseEnd, error) {
+	// REST has no status in its trailers, but HTTP trailers set by the handler are
+	// application metadata that must reach the client.
+	return responseEnd{trailers: trailers}, nil
 }
 
 func (r restServerProtocol) requestNeedsPrep(op *operation) bool {
